@@ -45,7 +45,7 @@ var zzC14Progs = []string{
 
 // zzEffects splits the recorded trace into platform effects, dropping the
 // yield markers.
-func zzEffects(trace []string) []string {
+func zzTraceEffects(trace []string) []string {
 	var out []string
 	for _, t := range trace {
 		if t != "Y" && t != "STOP" {
@@ -115,7 +115,7 @@ func ZZC14Stop() {
 	}
 	// (d) the effects up to the stop are a prefix of the effects of a longer run
 	p2, _, _, _ := zzRunStopped(src, K+5)
-	e1, e2 := zzEffects(p.trace), zzEffects(p2.trace)
+	e1, e2 := zzTraceEffects(p.trace), zzTraceEffects(p2.trace)
 	if n := len(e1); n > 0 && (strings.HasPrefix(e1[n-1], "print:✅") || strings.HasPrefix(e1[n-1], "print:❌")) {
 		e1 = e1[:n-1]
 	}
@@ -148,14 +148,14 @@ func ZZC14Event() {
 	if ev.Stopped {
 		zzReach("ev-stopped")
 		zzAssert(err != nil && errors.Is(err, ErrStopped), "C14 event: handler interrupted with ErrStopped")
-		n := len(zzEffects(p.trace))
+		n := len(zzTraceEffects(p.trace))
 		err = ev.HandleEvent(Event{Name: "key", Params: []any{"b"}})
 		zzAssert(err != nil && errors.Is(err, ErrStopped), "C14 event: events after the stop return ErrStopped")
-		zzAssert(len(zzEffects(p.trace)) == n, "C14 event: no effect for events delivered after the stop")
+		zzAssert(len(zzTraceEffects(p.trace)) == n, "C14 event: no effect for events delivered after the stop")
 	} else {
 		zzReach("ev-done")
 		zzAssert(err == nil, "C14 event: uninterrupted handler completes")
-		zzAssert(strings.Join(zzEffects(p.trace), "|") == "print:a 0\n|print:a 1\n|print:a 2\n", "C14 event: handler effects")
+		zzAssert(strings.Join(zzTraceEffects(p.trace), "|") == "print:a 0\n|print:a 1\n|print:a 2\n", "C14 event: handler effects")
 	}
 	_ = strconv.Itoa
 	zzWitness("end")
